@@ -259,7 +259,12 @@ Definition process_section (o : options) (st : dstate) (should : bool) (p : patc
   let write0 := negb (dry_run o) && negb (r_skipped ar && is_nil (out_file_path o)) in
   let should_backup := save_backup o ||
       (negb (r_perfect ar) && negb (r_skipped ar) && match backup_if_mismatch o with OBYes => true | _ => false end) in
-  let is_delete := match remove_empty_files o, poper p3 with OBYes, OpDelete => true | _, _ => false end in
+  let first_hunk_leaves_nothing :=
+    match hunks p3 with h :: _ => Z.eqb (rstart (newr h)) 0 && Z.eqb (rcount (newr h)) 0 | [] => false end in
+  let is_delete := match remove_empty_files o with
+                   | OBYes => match poper p3 with OpDelete => true | _ => first_hunk_leaves_nothing end
+                   | _ => false
+                   end in
   let! x :=
     (if is_delete then
        if is_nil out_bytes then
@@ -269,7 +274,7 @@ Definition process_section (o : options) (st : dstate) (should : bool) (p : patc
            let! m2 := get_fs in
            let! _ := (if exists_ m2 output_file then remove_file_and_empty_parent_folders output_file else mret tt) in
            mret (st3, false)
-       else mret (set_failure st2, write0)
+       else mret ((if str_eqb (new_path p3) devnull then set_failure st2 else st2), write0)
      else mret (st2, write0)) in
   let '(st4, write_to_file) := x in
   let! st5 :=
